@@ -88,7 +88,7 @@ PROPS = {
     "C01": {
         "invariants": ["C01"],
         "mc": {"quick": [mc("Core-addr-2x2", must_cover=SUBMIT), mc("Core-sc-2x2", kinds="InitKindsSC", must_cover=SUBMITW)],
-               "thorough": [mc("Core-addr-2x2", must_cover=SUBMIT), mc("Core-addr-b1-2x3", maxops=3, cfgs="CfgsB1", must_cover=SUBMIT), mc("Core-addr-b0-2x3", maxops=3, cfgs="CfgsB0", ops=("send", "call", "ping")),
+               "thorough": [mc("Core-addr-2x2", must_cover=SUBMIT), mc("Core-addr-b1-2x3", maxops=3, cfgs="CfgsB1", must_cover=SUBMIT), mc("Core-addr-b0-2x2", cfgs="CfgsB0", ops=("send", "call", "ping", "stop")),
                             mc("Core-sc-2x3", maxops=3, kinds="InitKindsSC"), mc("Core-weak-3x2", clients=C3, kinds="InitKindsWeak", cfgs="CfgsB1")]},
         "gen": {"quick": [gen("g-addr-b1-2x2", "Main_Addr2_B1", ops=("send", "call", "ping")), gen("g-ping-b1-2x2", "Main_Addr2_B1", ops=("send", "ping"), scripts="ScriptsCore")], "thorough": [gen("g-addr-b1-2x2", "Main_Addr2_B1", ops=("send", "call", "ping")), gen("g-sc-b1-2x2", "Main_SC_B1", ops=("send", "call"), scripts="ScriptsCore"), gen("g-addr-b0-2x3", "Main_Addr2_B0", maxops=3, ops=("send", "call"))]},
         "families": [("core", 250, 2500), ("timers", 60, 600), ("stream", 60, 600)],
@@ -217,7 +217,7 @@ PROPS = {
     "C12": {
         "invariants": ["C12"],
         "mc": {"quick": [mc("Core-addr-2x2", must_cover=SUBMIT), mc("Core-b-2x2", kinds="InitKindsSC", cfgs="CfgsB1", ops=("send", "call", "stop"))],
-               "thorough": [mc("Core-addr-2x2", cfgs="CfgsCore2", must_cover=SUBMIT), mc("Core-addr-b1-2x3", maxops=3, cfgs="CfgsB1"), mc("Core-addr-b0-2x3", maxops=3, cfgs="CfgsB0", ops=("send", "call", "ping")),
+               "thorough": [mc("Core-addr-2x2", cfgs="CfgsCore2", must_cover=SUBMIT), mc("Core-addr-b1-2x3", maxops=3, cfgs="CfgsB1"), mc("Core-addr-b0-2x2", cfgs="CfgsB0", ops=("send", "call", "ping", "stop")),
                             mc("Core-b-3x2", clients=C3, kinds="InitKindsSC", cfgs="CfgsB1", ops=("send", "call", "stop"))]},
         "gen": {"quick": [gen("g-addr-b0-2x2", "Main_Addr2_B0", ops=("send", "call", "stop"))], "thorough": [gen("g-addr-b0-2x3", "Main_Addr2_B0", maxops=3, ops=("send", "call")), gen("g-sc-b1-2x3", "Main_SC_B1", maxops=3, ops=("send", "call"))]},
         "live": [(mc("Live-send-2x2", ops=("send", "call", "stop"), scripts="ScriptsPlain", cfgs="CfgsB1", kinds="InitKindsSC"), ["L_SendReturns"]), (mc("Live-send0-2x2", ops=("send", "call", "drop"), scripts="ScriptsPlain", cfgs="CfgsCore"), ["L_SendReturns"])],
